@@ -2066,6 +2066,17 @@ func (w *walker) assign(lhs ast.Expr, rhs ast.Expr, s vset) vset {
 	if id, ok := lhs.(*ast.Ident); ok && id.Name == "_" {
 		return s
 	}
+	// the defining statement of an alias (x := a.b.c, x never re-assigned): x *is* that path from
+	// here on, nothing changes
+	if id, ok := lhs.(*ast.Ident); ok && w.sc.local {
+		if o := w.sc.info.ObjectOf(id); o != nil {
+			if _, isAlias := w.e.aliases[o]; isAlias {
+				if _, isFlag := w.e.okvars[o]; !isFlag {
+					return s
+				}
+			}
+		}
+	}
 	// p = max(a, b) / min(a, b): p = a where a ≥ b (resp. ≤), p = b otherwise
 	if rhs != nil {
 		for _, name := range []string{"max", "min"} {
